@@ -10,6 +10,7 @@ use std::path::{Path, PathBuf};
 mod parsites;
 mod instrspec;
 mod codestart;
+mod parsearms;
 
 pub fn rust_files(dir: &Path, out: &mut Vec<PathBuf>) {
     let mut entries: Vec<_> = fs::read_dir(dir).unwrap().map(|e| e.unwrap().path()).collect();
@@ -41,6 +42,7 @@ fn main() {
             "parsites" => ("ParSites.lean", parsites::generate(&repo)),
             "instrspec" => ("InstrSpec.lean", instrspec::generate(&repo)),
             "codestart" => ("CodeStart.lean", codestart::generate(&repo)),
+            "parsearms" => ("ParseArms.lean", parsearms::generate(&repo)),
             other => {
                 eprintln!("unknown target {}", other);
                 std::process::exit(2);
